@@ -75,6 +75,9 @@ def generate():
 
 
 def run(ctx):
+    import skeleton
+    nm = skeleton.slice_names([sl for sl in SLICES if sl["func"] != "<module>"])
+    skeleton.check_names(ctx, "km", KMFILE(), ["_phiM", "_phiC", "_psiM", "_nParam", "_mParam", FP, Z0], nm)
     try:
         text = generate()
     except py2coq.TranslateError as e:
